@@ -50,11 +50,12 @@ class BoolV:
 class RealV:
     """float whose value is modelled as a mathematical real (assumption A3)."""
 
-    __slots__ = ("t", "nan")
+    __slots__ = ("t", "nan", "ratio")
 
-    def __init__(self, t, nan=False):
+    def __init__(self, t, nan=False, ratio=None):
         self.t = t
         self.nan = nan  # z3 Bool / python bool : value is NaN
+        self.ratio = ratio  # (num, den) integer terms when the value is that exact quotient (A3)
 
     def __repr__(self):
         return f"RealV({self.t})"
@@ -153,6 +154,42 @@ class MapV:
         return MapV(z3.Const(f"{name}!has", z3.ArraySort(I, B)), f, payload)
 
 
+class SliceSeqV:
+    """list of slices of symbolic length (six arrays indexed by position)"""
+    __slots__ = ("n", "a")
+
+    def __init__(self, n, a):
+        self.n = n      # z3 Int: length
+        self.a = a      # dict n0,v0,n1,v1,n2,v2 -> Array
+
+    def get(self, t):
+        g = lambda k: z3.Select(self.a[k], t)
+        return SliceV(Opt(g("n0"), g("v0")), Opt(g("n1"), g("v1")), Opt(g("n2"), g("v2")))
+
+    @staticmethod
+    def fresh(name, n):
+        I, B = z3.IntSort(), z3.BoolSort()
+        a = {}
+        for i in range(3):
+            a[f"n{i}"] = z3.Const(f"{name}!n{i}", z3.ArraySort(I, B))
+            a[f"v{i}"] = z3.Const(f"{name}!v{i}", z3.ArraySort(I, I))
+        return SliceSeqV(n, a)
+
+    def __repr__(self):
+        return f"SliceSeqV(len={self.n})"
+
+
+class SortedItemsV:
+    """sorted(d.items()) of a dict[int -> slice]: the increasing key sequence plus the map"""
+    __slots__ = ("m", "keys", "n")
+
+    def __init__(self, m, keys, n):
+        self.m, self.keys, self.n = m, keys, n
+
+    def __repr__(self):
+        return f"SortedItemsV(len={self.n})"
+
+
 class StrV:
     """a string: concrete literal (s) or symbolic (t, uninterpreted sort; only == / !=)."""
     __slots__ = ("s", "t")
@@ -215,7 +252,7 @@ class ObjV:
         return f"ObjV<{self.cls}>({list(self.fields)})"
 
 
-SYM_CLASSES = (Opt, BoolV, RealV, SliceV, SeqV, TupV, MapV, ObjV, AbsV)
+SYM_CLASSES = (Opt, BoolV, RealV, SliceV, SeqV, TupV, MapV, ObjV, AbsV, SliceSeqV, SortedItemsV)
 
 
 def is_sym(x):
@@ -269,9 +306,14 @@ class Ctx:
         self.divcache = {}
         self.counter = itertools.count()
         self.hints = []
+        self.binders = []
 
     def fresh(self, base, sort=None):
         n = next(self.counter)
+        if getattr(self, "binders", None):
+            # inside a comprehension body: a fresh symbol is a function of the element index
+            f = z3.Function(f"{base}!{n}", *([z3.IntSort()] * len(self.binders)), sort or z3.IntSort())
+            return f(*self.binders)
         return z3.Const(f"{base}!{n}", sort or z3.IntSort())
 
 
@@ -522,7 +564,9 @@ def rlen(lo, hi, st):
         return CTX.divcache[key]
     # characterisation by a fresh count (definitional: exists and is unique for st != 0);
     # far friendlier to the nonlinear solvers than a quotient witness
-    c = CTX.fresh("cnt")
+    # the count is an uninterpreted *function* of (lo, hi, st) with a ground defining instance per occurrence, so
+    # that congruence identifies the counts of equal ranges
+    c = f_rlen(lo, hi, st)
     CTX.defs.append(c >= 0, (c,))
     CTX.defs.append(z3.Implies(st > 0, z3.And(
         z3.Implies(lo >= hi, c == 0),
@@ -563,6 +607,7 @@ if z3 is not None:
             ABS_SORTS[name] = z3.DeclareSort("Abs_" + name)
         return ABS_SORTS[name]
 
+    f_rlen = z3.Function("pyrlen", z3.IntSort(), z3.IntSort(), z3.IntSort(), z3.IntSort())
     f_pydiv = z3.Function("pydiv", z3.IntSort(), z3.IntSort(), z3.IntSort())
     f_pymod = z3.Function("pymod", z3.IntSort(), z3.IntSort(), z3.IntSort())
     SeqSort = z3.DeclareSort("IntSeq")
